@@ -38,8 +38,8 @@ def covering_removed(ctx, rule, cfg="A"):
                 "GGMPuncturableKey::puncture has no removal from `prefixes` (found %d) or no Ok" % len(rem), at)
         return
     cfg_ = fr.cfg
-    ok_blocks = [b for (fk, b) in okv[4] if fk == fr.key]
-    dom = bool(ok_blocks) and all(any(cfg_.dominates(r["block"], b) for r in rem) for b in ok_blocks)
+    ok_blocks = [Q.origin_block(b) for (fk, b) in okv[4] if fk == fr.key]
+    dom = bool(ok_blocks) and all(any(cfg_.dominates(r["home_block"], b) for r in rem) for b in ok_blocks)
     ctx.add(rule, KPUNC + "#removes-covering-node", dom,
             "every successful puncture must pass through the removal of the covering node from `prefixes`; the removal at %s "
             "does not dominate the Ok at bb%s" % ([r["at"] for r in rem], ok_blocks), rem[0]["at"],
@@ -59,7 +59,7 @@ def server_puncture_passes_through(ctx, rule):
     root = "ppoprf::ppoprf::Server::puncture"
     eng, ret, st, fr = ctx.root(root)
     at = ctx.fn(root).loc
-    pc = [e for e in Q.calls(eng, "PPRF>::puncture") if e["frame"] == fr.key]
+    pc = [e for e in Q.calls(eng, "PPRF>::puncture") if e["home"] == fr.key]
     okv = Q.variant(ret, 0)
     ok = len(pc) == 1 and okv is not None
     det = "%d key-level puncture call(s)" % len(pc)
